@@ -24,7 +24,7 @@ def impl_obs(rep):
         coqstr(rep.get("errk", "")), coqstr(rep.get("errmsg", "")), coqstr(rep.get("out", "")))
 
 
-def run_programs(chk, programs, cmp_msg=False, repeat=1, fuel=None, tag=None, stdin="", prelude=""):
+def run_programs(chk, programs, cmp_msg=False, repeat=2, fuel=None, tag=None, stdin="", prelude=""):
     """programs: list of source strings. Returns list of dicts:
        {src, impl, verdict}, verdict in agree|disagree|fuel|unsup|syntax|panic|nocoq (+ model on disagree)."""
     tag = tag or chk.pid
@@ -138,6 +138,14 @@ def conclude(chk, ok, broken, props_file, res, viol, model_only, prefix, corr):
     for a in ASSUME:
         if a not in chk.assumptions:
             chk.assumptions.append(a)
+    # every program is evaluated twice in one interpreter (fresh scope each time): the two evaluations must agree
+    nd = [r for r in res if r.get("impl", {}).get("nondet")]
+    if nd and not viol:
+        r = nd[0]
+        viol = list(viol) + [("the same program gives a different result the second time it is evaluated in one interpreter: `%s` first %s, then %s"
+                              % (r["src"].strip().replace("\n", "; ")[:300], {k: r["impl"].get(k) for k in ("kind", "repr", "errk", "out")}, r["impl"]["nondet"][:1]),
+                              {"program": r["src"], "first": {k: r["impl"].get(k) for k in ("kind", "repr", "errk", "errmsg", "out")},
+                               "second": r["impl"]["nondet"][:2], "cases": len(nd)}, prefix + ":second-evaluation")]
     seen = set()
     for what, replay, klass in viol:
         if klass in seen:
